@@ -175,6 +175,14 @@ func (ip *Interp) entryStorage(name string, elem types.Type) *Storage {
 	return s
 }
 
+// atom returns the integer entry atom called name, or its assumed value.
+func (ip *Interp) atom(name string) *Term {
+	if a, ok := ip.assume[name]; ok {
+		return a
+	}
+	return mkAtom(name, intT)
+}
+
 // symVal builds the symbolic value of an entry location called name.
 func (ip *Interp) symVal(name string, typ types.Type, kind ObjKind, root string, st *State) Val {
 	if a, ok := ip.assume[name]; ok {
@@ -193,7 +201,7 @@ func (ip *Interp) symVal(name string, typ types.Type, kind ObjKind, root string,
 		}
 		return sv
 	case *types.Slice:
-		ln, cp := mkAtom("len("+name+")", intT), mkAtom("cap("+name+")", intT)
+		ln, cp := ip.atom("len("+name+")"), ip.atom("cap("+name+")")
 		if st != nil {
 			st.facts.add(Cond{Kind: CGE0, P: normInt(ln), Tag: "axiom"})
 			st.facts.add(Cond{Kind: CGE0, P: normInt(cp).Sub(normInt(ln)), Tag: "axiom"})
@@ -429,7 +437,7 @@ func (ip *Interp) loadElem(s *Storage, idx *Term, st *State, fr *frame, pos toke
 	case *types.Slice:
 		ci := canon(idx)
 		name := fmt.Sprintf("%s[%s]", s.Name, pretty(ci))
-		ln, cp := mkAtom("len("+name+")", intT), mkAtom("cap("+name+")", intT)
+		ln, cp := ip.atom("len("+name+")"), ip.atom("cap("+name+")")
 		st.facts.add(Cond{Kind: CGE0, P: normInt(ln), Tag: "axiom"})
 		st.facts.add(Cond{Kind: CGE0, P: normInt(cp).Sub(normInt(ln)), Tag: "axiom"})
 		es := ip.entryStorage(name, u.Elem())
@@ -913,6 +921,11 @@ func (ip *Interp) execLoop(fr *frame, lp *loopInfo, pred *ssa.BasicBlock, st *St
 				continue
 			}
 			backs = append(backs, o)
+			for _, fc := range o.St.facts.list {
+				if fc.Tag == "axiom" {
+					post.facts.add(fc)
+				}
+			}
 			for _, e := range o.St.effects {
 				if !seen[e] {
 					seen[e] = true
